@@ -7,3 +7,4 @@ import GscribModel.Props.C06
 import GscribModel.Props.C03
 import GscribModel.Props.C01
 import GscribModel.Props.C07
+import GscribModel.Props.C19
